@@ -75,7 +75,7 @@ def check_c19(core, rng, n):
         ntr = 0
         for step in range(rng.randrange(3, 9)):
             # a step carries new limit orders, cancellations of earlier orders, (StepEnv) modifications - or only cancellations, or nothing at all
-            kind = rng.choice(['mixed', 'mixed', 'mixed', 'cancels_only', 'empty', 'instructions'])
+            kind = rng.choice(['mixed', 'mixed', 'mixed', 'cancels_only', 'empty', 'instructions', 'reprice_only'])
             n_known = len(env.get_orders())
             if kind in ('mixed', 'instructions'):
                 batch = []
@@ -110,6 +110,24 @@ def check_c19(core, rng, n):
                 else:
                     for oid in ids:
                         env.cancel_order(oid)
+            if kind == 'reprice_only' and n_known:
+                # a step that only moves resting volume between levels of a side: touch price and total volume may stay the same while the per-level slots change
+                live = [o for o in env.get_orders() if o[1] == 1]
+                for o in rng.sample(live, min(len(live), rng.randrange(1, 3))):
+                    newp = pick_price(bool(o[0]))
+                    # only moves that cannot cross the book (so that nothing trades): bids stay below every ask, asks above every bid
+                    asks = [x[6] for x in live if not x[0]]
+                    bids = [x[6] for x in live if x[0]]
+                    if (o[0] and asks and newp >= min(asks)) or (not o[0] and bids and newp <= max(bids)):
+                        continue
+                    if numpy_env:
+                        # the numpy class has no modify: cancel and re-enter the same volume at the new price
+                        env.submit_instructions((np.array([2, 1], dtype=np.uint32), np.array([False, bool(o[0])]), np.array([0, o[4]], dtype=np.uint32),
+                                                 np.array([0, o[7]], dtype=np.uint32), np.array([0, newp], dtype=np.uint32), np.array([o[8], 0], dtype=np.uint64)))
+                        calls.append(('cancel+reenter', o[8], newp))
+                    else:
+                        env.modify_order(o[8], newp, None)
+                        calls.append(('modify', o[8], newp, None))
             if kind == 'mixed' and n_known and not numpy_env and rng.random() < 0.4:
                 oid = rng.randrange(n_known)
                 np_, nv = rng.choice([None, pick_price(bool(env.get_orders()[oid][0]))]), rng.choice([None, rng.randrange(1, 30)])
